@@ -584,7 +584,7 @@ class Gen:
                         res.append(("For", a["tgt"], a["iter"], combo[0], combo[1] if has_else else None, None))
             # While with a counter (two iterations); the counter is per depth
             wv = "w%d" % d
-            for b in self.bodies(inner, d, False):
+            for b in self.bodies(inner, d, False) if "while" not in a.get("without", ()) else ():
                 res.append(("__While", wv, b))
             # Try with 1..2 handlers
             for hs in a["handlers"]:
@@ -599,7 +599,7 @@ class Gen:
             for b in self.bodies(inner, d, in_for):
                 res.append(("With", "cm(context, 'm') as v", b))
             # call of a def whose body comes from the same grammar
-            for b in self.bodies(inner, d, False):
+            for b in self.bodies(inner, d, False) if "call" not in a.get("without", ()) else ():
                 res.append(("__Call", b))
         self.memo_s[key] = res
         return res
